@@ -129,12 +129,16 @@ def data_spec(draw, e=None, n=None, d=None, max_n=64, min_n=2, sim_n=None):
     # sometimes make a member an exact copy of the real data (ties / zero distances)
     if sn == n and draw(st.integers(0, 5)) == 0:
         sim[draw(st.integers(0, e - 1))] = [dict(r) for r in real]
-    return {"E": e, "N": n, "SN": sn, "D": d, "sim": sim, "real": real}
+    # data may arrive as integer arrays (counts): same values, another dtype
+    return {"E": e, "N": n, "SN": sn, "D": d, "sim": sim, "real": real, "int_data": draw(st.integers(0, 7)) == 0}
 
 
 def build_data(ds):
     sim = np.stack([np.stack([build_series(s, ds["SN"]) for s in member], axis=1) for member in ds["sim"]])
     real = np.stack([build_series(s, ds["N"]) for s in ds["real"]], axis=1)
+    if ds.get("int_data"):
+        with np.errstate(all="ignore"):
+            sim, real = np.rint(np.clip(sim * 4, -1e9, 1e9)).astype(np.int64), np.rint(np.clip(real * 4, -1e9, 1e9)).astype(np.int64)
     return sim, real
 
 
